@@ -134,6 +134,13 @@ def run_bundle(ctx, m, jobs, seeds, reps, threads, stats):
             ctx.log("asn1c rejected generated module", m["name"], e.out.strip().split("\n")[0][:160])
             stats["asn1c_rejected"] += 1
             return fails
+        except build.BuildError as e:
+            # libskel/asn1c were built before (run()): this is the generated module itself not compiling,
+            # a C10 matter (e.g. `&asn_DFL_6_set_-4` for a negative DEFAULT); the module is skipped
+            errl = [l for l in str(e).split("\n") if "error" in l]
+            ctx.log("generated module does not compile (C10 matter, skipped):", m["name"], (errl or [str(e)])[0][:200])
+            stats["cc_failed"] += 1
+            return fails
         stats["programs"] += 1
         # the generated module's own objects must not bring writable state either
         gobjs = [os.path.join(b.dir, "obj", f) for f in os.listdir(os.path.join(b.dir, "obj"))]
@@ -159,7 +166,7 @@ def run_bundle(ctx, m, jobs, seeds, reps, threads, stats):
             for d in dones:
                 stats["executed"] += int(d[3]); stats["runs"] += 1
                 stats["by_threads"][d[1]] += int(d[3])
-            if dones:
+            if dones and sd == seeds[0]:        # distinct jobs of this bundle: counted once, not once per seed
                 stats["jobs"] += int(dones[0][0]); stats["loaderr"] += int(dones[0][6]); stats["nondet"] += int(dones[0][5])
             stats["tsan_reports"] += len(tsan)
             stats["mismatches"] += sum(int(d[4]) for d in dones)
@@ -211,6 +218,7 @@ def run(ctx):
         "note": "Generated/Globals.lean regenerated from nm + source scan on this run; the Lean theorems are the comparison"}
 
     # ---- P leg
+    build.build_asn1c(); build.build_skel(SAN)      # a failure here is a failure of the tree itself: propagates
     stats = collections.Counter(); stats["gen_mutable"] = []; stats["by_threads"] = collections.Counter()
     if ctx.quick:
         nb, ntypes, nvals, reps, threads = 6, 10, 5, 4, "2,4,8,16"
@@ -240,6 +248,8 @@ def run(ctx):
         ctx.violation(f"generated module object {o} has a mutable global `{sym}`", {"module_name": m, "object": o, "symbol": sym})
     for f in allfails[:3]:
         ctx.violation("C19 fails on C: " + f["why"][:400], f)
+    if stats["programs"] == 0:
+        ctx.broken.append({"kind": "harness", "msg": "no generated module could be built and run"})
     ctx.cov["evaluations"] += stats["executed"]
     ctx.cov["distinct_nontrivial"] = stats["jobs"]
     ctx.cov["programs"] = stats["programs"]
@@ -249,6 +259,7 @@ def run(ctx):
         "yield_seeds": seeds, "reps": reps, "threads": threads,
         "tsan_reports": stats["tsan_reports"], "digest_mismatches": stats["mismatches"],
         "nondeterministic_jobs": stats["nondet"], "unloadable_jobs": stats["loaderr"], "jobs_crashing_alone_dropped": stats["alone_crashes"],
+        "modules_rejected_by_asn1c": stats["asn1c_rejected"], "modules_not_compiling(C10)": stats["cc_failed"],
         "generated_object_symbols_scanned": stats["gen_symbols"], "generated_mutable_globals": len(stats["gen_mutable"]),
         "skipped_known_regions": dict(skipped), "failures": len(allfails)}
     ctx.cov["rule"] = ("job = (type, syntax, value): load, encode, decode, validate, print, compare, re-encode, free; "
